@@ -56,6 +56,11 @@ def builtin_table():
     return t
 
 
+def def_width(d):
+    """number of qubits a custom gate definition acts on, from its PUBLIC matrix (not from a private field)"""
+    return int(d.matrix.shape[0]).bit_length() - 1
+
+
 def to_np(M):
     """numeric sympy Matrix -> complex ndarray (own conversion)"""
     if isinstance(M, np.ndarray):
